@@ -17,7 +17,11 @@ from harness.props import c06
 
 RULE = ("cases: random trees 1..7 nodes (all ordered trees <= 5 nodes in the thorough tier), complex tensors with bonds "
         "from {1,2,3,5} (larger than the adjacent space, dimension 1), rank-deficient tensors, every mode "
-        "(REDUCED, FULL, KEEP), random centre, then 0..6 centre moves. non-trivial = distinct case with >= 3 nodes "
+        "(REDUCED, FULL, KEEP), random centre, then 0..6 centre moves. Input-space audit: every entry point "
+        "(canonical_form with / without `mode`, orthogonalize, the module-level function, ensure_orth_center, "
+        "ensure_root_orth_center), interleaved ensure_* calls, direct split_qr_contract_r_to_neighbour with the "
+        "centre recorded by hand, replacement of the centre tensor, prefix-related identifiers, nodes with 0 / 2 open "
+        "legs, norms 1e-8 .. 1e8, a zero tensor, single precision, read-only arrays. non-trivial = distinct case with >= 3 nodes "
         "or a redundant/rank-deficient bond")
 PARTIAL = ["Q is an isometry and Q R = tensor is the contract of numpy.linalg.qr (validated on every resulting tensor)",
            "proved is the bookkeeping: which node is split toward which neighbour, for every distance table "
@@ -53,7 +57,34 @@ def gen_cases(ctx):
                       "mode": mode, "moves": rng.randint(0, 3 if small else 6), "deficient": rng.random() < 0.3,
                       "small": small,
                       "mixed": mixed, "dtype": rng.choice(["complex", "complex", "float", "int"])})
+        audit_fields(rng, cases[-1])
     return cases
+
+
+ENTRIES = ["method", "method", "default", "orthogonalize", "function", "ensure", "ensure_root"]
+NAME_POOL = ["n1", "n10", "n100", "n", "1", "10", "n1contrn10", "N1", "n 1", "n1_", "_n1", "n01", "out_of_n1"]
+
+
+def audit_fields(rng, case):
+    """Input-space audit (notes/C03.md): every public entry point of the canonicalisation (method with / without the
+    optional `mode`, `orthogonalize`, the module-level function, `ensure_orth_center`, `ensure_root_orth_center`),
+    the operations that can be interleaved with centre moves (ensure_*, a direct `split_qr_contract_r_to_neighbour`
+    with the centre recorded by hand as the TDVP code does, replacement of the centre tensor), identifiers that are
+    prefixes of each other, nodes with no / two open legs, magnitudes 1e-8 .. 1e8, a zero tensor, single precision,
+    read-only arrays."""
+    r = random.Random(rng.randrange(10 ** 9))
+    case["entry"] = r.choice(ENTRIES)
+    if case["entry"] == "default":
+        case["mode"] = "REDUCED"                      # the documented default is what an omitted `mode` must mean
+    case["ops"] = r.random() < 0.6                    # draw the interleaved operations from the extended set
+    case["names"] = r.random() < 0.3
+    case["opens"] = r.choice(["one", "one", "mixed"])
+    case["scale"] = r.choice([None, None, None, 1e-8, 1e8, 1e-4, 1e4])
+    case["zero"] = r.random() < 0.06
+    case["readonly"] = r.random() < 0.15
+    if case.get("dtype") == "complex" and r.random() < 0.15:
+        case["dtype"] = r.choice(["float32", "complex64"])
+    return case
 
 
 class QRLog:
@@ -120,12 +151,32 @@ def _make_state(case):
     rng = random.Random(case["seed"])
     nprng = np.random.default_rng(case["seed"])
     par = case["par"]
-    if case.get("small") or case.get("mode") == "FULL":
-        ttns, info = gen.random_ttns(rng, nprng, par, phys=(1, 2, 2), bonds=(1, 2, 2, 3))
+    small = case.get("small") or case.get("mode") == "FULL"
+    phys = (1, 2, 2) if small else (1, 2, 2, 3)
+    bonds = (1, 2, 2, 3) if small else (1, 2, 2, 3, 5)
+    arng = random.Random(case["seed"] ^ 0x2545F491)        # private stream of the audit fields
+    kw = {}
+    if case.get("names"):
+        kw["names"] = dict(enumerate(arng.sample(NAME_POOL, len(par))))
+    if case.get("opens") == "mixed":
+        # a TreeTensorNetwork node may have no open leg or several; canonical_form is a method of the base class
+        from pytreenet.ttns.ttns import TreeTensorNetworkState
+        bond = gen.random_bonds(rng, par, bonds)
+        open_dims = {}
+        for i in range(len(par)):
+            x = arng.random()
+            open_dims[i] = ([] if (x < 0.25 and len(par) > 1) else
+                            [arng.choice(phys), arng.choice((1, 2))] if x < 0.5 else [arng.choice(phys)])
+        ttns, canon, attach, names = gen.build_network(TreeTensorNetworkState, par, bond, open_dims, rng, nprng, **kw)
+        info = {"par": list(par), "bond": bond, "open": open_dims, "attach": attach, "names": names, "canon": canon}
     else:
-        ttns, info = gen.random_ttns(rng, nprng, par, phys=(1, 2, 2, 3), bonds=(1, 2, 2, 3, 5))
+        ttns, info = gen.random_ttns(rng, nprng, par, phys=phys, bonds=bonds, **kw)
     dt = case.get("dtype", "complex")
-    if dt != "complex":
+    if dt in ("float32", "complex64"):
+        for nid in sorted(ttns.nodes):
+            t = ttns.tensors[nid]
+            ttns.replace_tensor(nid, np.ascontiguousarray(t.real if dt == "float32" else t).astype(dt))
+    elif dt != "complex":
         # real / integer element types (hand-written basis or GHZ-like tensors are integer arrays)
         for nid in sorted(ttns.nodes):
             t = ttns.tensors[nid]
@@ -142,11 +193,47 @@ def _make_state(case):
             v = nprng.standard_normal(t.shape[k]) + 1j * nprng.standard_normal(t.shape[k])
             P = np.outer(v, v.conj()) / np.vdot(v, v)
             t2 = np.moveaxis(np.tensordot(t, P, axes=([k], [1])), -1, k)
-            ttns.replace_tensor(nid, t2)
+            ttns.replace_tensor(nid, t2.astype(t.dtype) if t.dtype in (np.float32, np.complex64) else t2)
+    ids = sorted(ttns.nodes)
+    if case.get("scale"):
+        # the norm of the state is moved by this factor, spread over all tensors
+        f = case["scale"] ** (1.0 / len(ids))
+        for nid in ids:
+            t = ttns.tensors[nid]
+            if t.dtype.kind in "fc":
+                ttns.replace_tensor(nid, (t * f).astype(t.dtype))
+    if case.get("zero"):
+        nid = arng.choice(ids)
+        ttns.replace_tensor(nid, np.zeros_like(ttns.tensors[nid]))
+    if case.get("readonly"):
+        for nid in ids:
+            t = np.array(ttns.tensors[nid], copy=True)
+            t.flags.writeable = False
+            ttns.replace_tensor(nid, t)
     return rng, ttns, info
 
 
-def _check_state(ttns, centre, mode, v0, struct0, shapes0, order, what, strict=None):
+class Ref:
+    """What the state must be compared with, and the scales every tolerance is relative to."""
+
+    def __init__(self, ttns, order):
+        self.order = order
+        self.refresh(ttns)
+
+    def refresh(self, ttns):
+        self.v0 = dense.ttns_vector(ttns, self.order)
+        self.n2 = float(np.vdot(self.v0, self.v0).real)
+        norms = [float(np.linalg.norm(ttns.tensors[nid])) for nid in self.order]
+        self.prod = float(np.prod(norms))                 # |psi| <= product of the tensor norms
+        single = any(ttns.tensors[nid].dtype in (np.float32, np.complex64) for nid in self.order)
+        self.mult = 1e5 if single else 1.0                # eps(float32) / eps(float64)
+        # round-off of a QR sweep is relative to the product of the tensor norms; exact cancellation (integer tensors,
+        # zero tensors) can make |psi| much smaller than that product
+        self.vscale = max(float(np.sqrt(self.n2)), 1e-4 * self.prod, 1e-300)
+        self.one_open_each = all(ttns.nodes[nid].nopen_legs() == 1 for nid in self.order)
+
+
+def _check_state(ttns, centre, mode, ref, struct0, shapes0, what, strict=None):
     probs = []
     if dense.structure(ttns) != struct0:
         return [f"{what}: identifiers / parent-child relations changed"]
@@ -155,10 +242,11 @@ def _check_state(ttns, centre, mode, v0, struct0, shapes0, order, what, strict=N
         return [f"{what}: not well-formed: {wf[:2]}"]
     if ttns.orthogonality_center_id != centre:
         probs.append(f"{what}: recorded centre {ttns.orthogonality_center_id} != {centre}")
-    v = dense.ttns_vector(ttns, order)
-    scale = max(1.0, np.linalg.norm(v0))
-    if v.shape != v0.shape or np.linalg.norm(v - v0) > 1e-9 * scale:
-        probs.append(f"{what}: represented state changed")
+    v0, mult = ref.v0, ref.mult
+    v = dense.ttns_vector(ttns, ref.order)
+    if v.shape != v0.shape or not np.linalg.norm(v - v0) <= 1e-9 * mult * ref.vscale:
+        probs.append(f"{what}: represented state changed (by {np.linalg.norm(v - v0):.3e}, norm {np.sqrt(ref.n2):.3e})"
+                     if v.shape == v0.shape else f"{what}: open dimensions changed")
     for nid in ttns.nodes:
         if nid == centre:
             continue
@@ -166,39 +254,71 @@ def _check_state(ttns, centre, mode, v0, struct0, shapes0, order, what, strict=N
         m = dense.matricize_toward(ttns, nid, path[1])
         want_strict = (mode != "KEEP") if strict is None else strict.get(nid, False)
         if not want_strict:
-            if not dense.is_partial_isometry(m, 1e-8):
+            if not dense.is_partial_isometry(m, 1e-8 * mult):
                 probs.append(f"{what}: node {nid} is not a partial isometry toward {centre}")
         else:
-            if not dense.is_isometry(m, 1e-8):
+            if not dense.is_isometry(m, 1e-8 * mult):
                 probs.append(f"{what}: node {nid} is not an isometry toward {centre}")
     if mode == "KEEP" and shapes0 is not None and c06._shape_map(ttns) != shapes0:
         probs.append(f"{what}: KEEP mode changed tensor shapes")
-    n2 = float(np.vdot(v0, v0).real)
-    for flag in (True, False):
+    n2 = ref.n2
+    n2scale = max(n2, ref.vscale ** 2)
+    # the consequence stated by the property, evaluated by the harness itself: norm of the centre tensor alone
+    ct = ttns.tensors[centre]
+    cn2 = float(np.vdot(ct, ct).real)
+    if not abs(cn2 - n2) <= 1e-8 * mult * n2scale:
+        probs.append(f"{what}: squared norm of the centre tensor {cn2} != squared norm of the state {n2}")
+    if ref.one_open_each:           # TreeTensorNetworkState documents exactly one physical leg per node
+        for flag in (True, False):
+            try:
+                sp = ttns.scalar_product(use_orthogonal_center=flag)
+                if not abs(sp - n2) <= 1e-8 * mult * n2scale:
+                    probs.append(f"{what}: scalar_product(use_orthogonal_center={flag}) = {sp} != {n2}")
+            except Exception as e:      # noqa: BLE001
+                probs.append(f"{what}: scalar_product(use_orthogonal_center={flag}) raised {type(e).__name__}: {e}")
         try:
-            sp = ttns.scalar_product(use_orthogonal_center=flag)
-            if abs(sp - n2) > 1e-8 * max(1.0, n2):
-                probs.append(f"{what}: scalar_product(use_orthogonal_center={flag}) = {sp} != {n2}")
-        except Exception as e:      # noqa: BLE001
-            probs.append(f"{what}: scalar_product(use_orthogonal_center={flag}) raised {type(e).__name__}: {e}")
-    try:
-        nr = ttns.norm()
-        if abs(nr - np.sqrt(n2)) > 1e-8 * max(1.0, np.sqrt(n2)):
-            probs.append(f"{what}: norm() = {nr} != {np.sqrt(n2)}")
-    except Exception as e:          # noqa: BLE001
-        probs.append(f"{what}: norm() raised {type(e).__name__}: {e}")
+            nr = ttns.norm()
+            if not abs(nr - np.sqrt(n2)) <= 1e-8 * mult * np.sqrt(n2scale):
+                probs.append(f"{what}: norm() = {nr} != {np.sqrt(n2)}")
+        except Exception as e:          # noqa: BLE001
+            probs.append(f"{what}: norm() raised {type(e).__name__}: {e}")
     return probs
+
+
+def _canon_line(ttns, inv, centre):
+    # model input must be read before the operation: distance table (dict order) and neighbour lists
+    dist = ttns.distance_to_node(centre)
+    nb = {nid: ([nd.parent] if nd.parent is not None else []) + list(nd.children) for nid, nd in ttns.nodes.items()}
+    return "C03 canon " + " ".join(f"{inv[k]}:{d}" for k, d in dist.items()) + " | " + \
+           " ".join(f"{inv[k]}:{','.join(str(inv[x]) for x in v)}" for k, v in nb.items())
+
+
+def _canonicalise(ttns, entry, centre, mode, mode_name):
+    """All public routes into `canonical_form`.  Returns the value the call returned."""
+    from pytreenet.core.canonical_form import canonical_form as canonical_form_function
+    if entry == "default" and mode_name == "REDUCED":
+        return ttns.canonical_form(centre)                      # optional argument omitted
+    if entry == "orthogonalize":
+        return ttns.orthogonalize(centre, mode=mode) if mode_name != "REDUCED" else ttns.orthogonalize(centre)
+    if entry == "function":
+        return canonical_form_function(ttns, centre, mode)      # positional
+    if entry == "ensure":
+        return ttns.ensure_orth_center(centre, mode=mode)
+    if entry == "ensure_root":
+        return ttns.ensure_root_orth_center(mode=mode) if mode_name != "REDUCED" else ttns.ensure_root_orth_center()
+    return ttns.canonical_form(centre, mode=mode)
 
 
 def _run_impl(ctx, case, qlog):
     from pytreenet.util.tensor_splitting import SplitMode
+    from pytreenet.core.canonical_form import split_qr_contract_r_to_neighbour
     rng, ttns, info = _make_state(case)
     names = info["names"]
     inv = {v: k for k, v in names.items()}
     n = len(case["par"])
     mode = getattr(SplitMode, case["mode"])
     order = sorted(ttns.nodes)
-    v0 = dense.ttns_vector(ttns, order)
+    ref = Ref(ttns, order)
     struct0 = dense.structure(ttns)
     shapes0 = c06._shape_map(ttns)
     redundant = any(__import__("harness.props.c05", fromlist=["x"])._redundant(ttns, nid) for nid in ttns.nodes)
@@ -209,24 +329,31 @@ def _run_impl(ctx, case, qlog):
     ctx.tally("redundant_bond", redundant)
     ctx.tally("rank_deficient", case["deficient"])
     ctx.tally("dtype", case.get("dtype", "complex"))
+    entry = case.get("entry", "method")
+    ctx.tally("entry_point", entry if not (entry == "default" and case["mode"] != "REDUCED") else "method")
+    ctx.tally("identifiers", "prefix pool" if case.get("names") else "n<i>")
+    ctx.tally("open_legs", case.get("opens", "one"))
+    ctx.tally("norm_factor", f"{case['scale']:g}" if case.get("scale") else "1")
+    ctx.tally("special_arrays", "+".join(k for k in ("zero", "readonly") if case.get(k)) or "-")
     ctx.sample(case, 3)
+    arng = random.Random(case["seed"] ^ 0x1B873593)      # private stream of the audit operations
     centre = rng.choice(order)
+    if entry == "ensure_root":
+        centre = ttns.root_id
     out = []
-    # model input must be read before the operation: distance table (dict order) and neighbour lists
-    dist = ttns.distance_to_node(centre)
-    nb = {nid: ([nd.parent] if nd.parent is not None else []) + list(nd.children) for nid, nd in ttns.nodes.items()}
-    line = "C03 canon " + " ".join(f"{inv[k]}:{d}" for k, d in dist.items()) + " | " + \
-           " ".join(f"{inv[k]}:{','.join(str(inv[x]) for x in v)}" for k, v in nb.items())
+    line = _canon_line(ttns, inv, centre)
     qlog.log.clear()
     try:
-        ttns.canonical_form(centre, mode=mode)
+        ret = _canonicalise(ttns, entry, centre, mode, case["mode"])
     except Exception as e:          # noqa: BLE001
-        ctx.oracle_fail(case, f"canonical_form({centre}, {case['mode']}) raised {type(e).__name__}: {str(e)[:200]}")
+        ctx.oracle_fail(case, f"canonical_form({centre}, {case['mode']}) via {entry} raised {type(e).__name__}: {str(e)[:200]}")
         return None
     impl = ("ok " + " ".join(f"{inv[a]}>{inv[b]}" for a, b in qlog.log)).strip()
     out.append((line, impl))
     ctx.hyp_validated += len(qlog.log)
-    probs = _check_state(ttns, centre, case["mode"], v0, struct0, shapes0, order, f"canonical_form at {centre}")
+    probs = _check_state(ttns, centre, case["mode"], ref, struct0, shapes0, f"canonical_form at {centre} via {entry}")
+    if entry in ("ensure", "ensure_root") and ret is not False:
+        probs.append(f"{entry}: returned {ret!r} although {centre} was not the orthogonality centre before")
     cur = centre
     history_modes = [case["mode"]]
     # expected status per node: True = strict isometry, False = only a (zero-padded) partial isometry
@@ -243,15 +370,50 @@ def _run_impl(ctx, case, qlog):
         history_modes.append(op_mode_name)
         op_mode = getattr(SplitMode, op_mode_name)
         recanon = case.get("mixed") and rng.random() < 0.4
+        kind = "recanon" if recanon else "move"
+        if case.get("ops"):
+            x = arng.random()
+            if x < 0.12 and all(strict.values()):
+                kind = "replace_centre"
+            elif kind == "move" and x < 0.35:
+                kind = "ensure"
+            elif kind == "move" and x < 0.45:
+                kind, new = "ensure_root", ttns.root_id
+            elif kind == "move" and x < 0.60 and n > 1:
+                kind = "direct"
+                nd = ttns.nodes[cur]
+                new = arng.choice(([nd.parent] if nd.parent is not None else []) + list(nd.children))
+            elif kind == "move" and x < 0.75 and op_mode_name == "REDUCED":
+                kind = "move_default"
+        ctx.tally("operations", kind)
         qlog.log.clear()
-        if recanon:
-            dist = ttns.distance_to_node(new)
-            nb = {nid: ([nd.parent] if nd.parent is not None else []) + list(nd.children)
-                  for nid, nd in ttns.nodes.items()}
-            line = "C03 canon " + " ".join(f"{inv[k]}:{d}" for k, d in dist.items()) + " | " + \
-                   " ".join(f"{inv[k]}:{','.join(str(inv[x]) for x in v)}" for k, v in nb.items())
+        if kind == "replace_centre":
+            # what a time step does: the centre tensor is replaced (same shape); the other tensors stay isometries,
+            # so afterwards the norm of the new centre tensor alone must still be the norm of the new state
+            old = ttns.tensors[cur]
+            nprng = np.random.default_rng(arng.randrange(10 ** 9))
+            fresh = (nprng.standard_normal(old.shape) + 1j * nprng.standard_normal(old.shape)) * \
+                (float(np.linalg.norm(old)) / max(np.sqrt(old.size), 1.0) or 1.0)
+            if old.dtype in (np.float32, np.complex64):
+                fresh = fresh.astype(np.complex64)
             try:
-                ttns.canonical_form(new, mode=op_mode)
+                if arng.random() < 0.5:
+                    ttns.replace_tensor(cur, fresh)
+                else:
+                    ttns.tensors[cur] = fresh
+            except Exception as e:      # noqa: BLE001
+                probs.append(f"replacing the centre tensor raised {type(e).__name__}: {str(e)[:160]}")
+                break
+            ref.refresh(ttns)
+            new, op_mode_name = cur, history_modes[-2] if len(history_modes) > 1 else case["mode"]
+            history_modes[-1] = op_mode_name
+            what = f"replacement of the centre tensor at {cur}"
+            keep_shapes = None
+        elif kind == "recanon":
+            line = _canon_line(ttns, inv, new)
+            try:
+                _canonicalise(ttns, arng.choice(["method", "orthogonalize", "function"]) if case.get("ops") else "method",
+                              new, op_mode, op_mode_name)
             except Exception as e:      # noqa: BLE001
                 probs.append(f"canonical_form({new}, {op_mode_name}) on a canonical state raised {type(e).__name__}: {str(e)[:160]}")
                 break
@@ -259,21 +421,37 @@ def _run_impl(ctx, case, qlog):
             out.append((line, impl))
             strict = {nid: op_mode_name != "KEEP" for nid in order}
             what = f"re-canonicalisation at {new} in {op_mode_name}"
+            keep_shapes = shapes_now if op_mode_name == "KEEP" else None
         else:
             path = dense.path_between(ttns, cur, new)
             try:
-                ttns.move_orthogonalization_center(new, mode=op_mode)
+                if kind == "move_default":
+                    ttns.move_orthogonalization_center(new)
+                elif kind == "ensure":
+                    ret = ttns.ensure_orth_center(new, mode=op_mode)
+                    if ret is not (new == cur):
+                        probs.append(f"ensure_orth_center({new}) returned {ret!r} with the centre at {cur}")
+                elif kind == "ensure_root":
+                    ret = ttns.ensure_root_orth_center(mode=op_mode)
+                    if ret is not (new == cur):
+                        probs.append(f"ensure_root_orth_center() returned {ret!r} with the centre at {cur}")
+                elif kind == "direct":
+                    split_qr_contract_r_to_neighbour(ttns, cur, new, mode=op_mode)
+                    ttns.orthogonality_center_id = new          # as OneSiteTDVP / _move_orth_center_to_neighbour do
+                else:
+                    ttns.move_orthogonalization_center(new, mode=op_mode)
             except Exception as e:      # noqa: BLE001
-                probs.append(f"move {cur}->{new} raised {type(e).__name__}: {str(e)[:160]}")
+                probs.append(f"{kind} {cur}->{new} raised {type(e).__name__}: {str(e)[:160]}")
                 break
             impl = (f"{inv[ttns.orthogonality_center_id]} " + " ".join(f"{inv[a]}>{inv[b]}" for a, b in qlog.log)).strip()
             out.append(("C03 move " + " ".join(str(inv[p]) for p in path), impl))
             for nid in path[:-1]:
                 strict[nid] = strict[nid] and False if op_mode_name == "KEEP" else True
-            what = f"move {cur}->{new} in {op_mode_name}"
+            what = f"{kind} {cur}->{new} in {op_mode_name}"
+            keep_shapes = shapes_now if op_mode_name == "KEEP" else None
         ctx.evaluations += 1
-        keep_shapes = shapes_now if op_mode_name == "KEEP" else None
-        probs += _check_state(ttns, new, op_mode_name, v0, struct0, keep_shapes, order, what, strict=strict)
+        ctx.hyp_validated += len(qlog.log)
+        probs += _check_state(ttns, new, op_mode_name, ref, struct0, keep_shapes, what, strict=strict)
         shapes_now = c06._shape_map(ttns)
         cur = new
     if probs:
